@@ -10,6 +10,7 @@ CANON = [
     (re.compile(r'^(std::)?unordered_map<QString,(QXmpp::Private::)?IqState>::(const_)?iterator$'), 'umap_it'),
     (re.compile(r'^(std::__detail::)?_Node_(const_)?iterator(_base)?<' + PAIR + r'.*>$'), 'umap_it'),
     (re.compile(r'^(std::)?unordered_map<QString,(QXmpp::Private::)?IqState>$'), 'umap'),
+    (re.compile(r'^(typename )?std::remove_reference<(std::)?unordered_map<QString,(QXmpp::Private::)?IqState>>::type$'), 'umap'),
     (re.compile(r'^' + PAIR + r'$'), 'iqpair'),
     (re.compile(r'^std::pair<(std::__detail::_Node_iterator<' + PAIR + r',false,true>|iterator),bool>$'), 'umap_emplace_ret'),
     (re.compile(r'^QXmppPromise<(QXmpp::Private::IqResult|IqResult|std::variant<QDomElement,QXmppError>)>$'), 'qpromise'),
@@ -210,6 +211,20 @@ def method_ret(cname, ctype):
     return rule
 
 
+def umap_move_construct(lw, n, target):
+    """std::unordered_map move construction `auto x = std::move(m)`: only from an explicit std::move of an lvalue"""
+    args = [a for a in n.get('inner', []) if a.get('kind') != 'CXXDefaultArgExpr']
+    a0 = lw.skip(args[0]) if len(args) == 1 else {}
+    if a0.get('kind') != 'CallExpr' or lw.callee_ref(a0).get('name') != 'move':
+        raise Unsupported('copy construction of the request table (only std::move of a table is modelled)')
+    src = lw.addr(lw.skip(a0['inner'][1]))
+    dst = target or lw.newtmp()
+    if not target:
+        lw.pre.append('umap %s;' % dst)
+    lw.pre.append('umap_move_ctor(&%s, %s);' % (dst, src))
+    return dst
+
+
 def profile():
     p = opaque_profile(
         types={'umap_it': 'umap_it', 'umap': 'umap', 'iqpair': 'iqpair', 'umap_emplace_ret': 'umap_emplace_ret', 'qpromise': 'qpromise', 'qtask': 'qtask',
@@ -239,6 +254,8 @@ def profile():
             'op*:umap_it': ('expr', '(*{0})'),
             'op++:umap_it': ('expr', '{v0} = umap_next({v0})'),
             'rangefor:umap': rangefor_desugared,
+            'ctor:umap(umap)': umap_move_construct,
+            'ctor:umap()': ('fn', 'umap_ctor'),
             'decomposition:std::pair<iterator,bool>': decomposition_emplace,
             'decomposition:std::pair<QString,QXmpp::Private::IqState>': decomposition_element,
             'expr:InitListExpr:IqState': init_iqstate,
